@@ -55,7 +55,7 @@ PROPS = {
 }
 PROBES = {'C05': ['sim_schedule_runs', 'real_openmp_runs', 'cache_on', 'sorted_runs', 'reorder_runs', 'reorder_on_periodic',
                   'cross_thread_cache_use', 'write_set_chunks_checked', 'bit_identical_checked', 'repeat_checked',
-                  'multi_array_problem', 'reorder_on_mirror', 'arrays_start_to_interact_late']}
+                  'multi_array_problem', 'reorder_on_mirror', 'arrays_start_to_interact_late', 'sorted_with_partly_valid_gids']}
 
 _BASE = {}
 
@@ -80,7 +80,7 @@ def _child_run(cfg):
     threads = max(1, min(16, int(cfg.get('threads', 1))))
     set_number_of_threads(threads if kind in ('omp', 'sim') else 1)
     argv = P.problem_args(cfg['problem'], int(cfg['nx']))
-    app = P.make_app(cfg['problem'], bool(cfg.get('valid_gids')))
+    app = P.make_app(cfg['problem'], int(cfg.get('valid_gids') or 0))
     argv += ['--max-steps', str(int(cfg['steps'])), '--disable-output', '--directory', _outdir(), '--quiet',
              '--nnps', cfg.get('nnps', 'll')]
     argv += ['--openmp'] if kind == 'omp' else ['--no-openmp']
@@ -263,7 +263,7 @@ def gen(t, prop, tier):
     kind = t.wchoice([('serial', 2), ('omp', 3), ('sim', 6)])
     can_reorder = nnps in REORDER
     return dict(problem=problem, nx=nx, steps=steps, nnps=nnps, knobs=knobs, cache=int(t.bool(0.6)), sort_gids=int(t.bool(0.6)),
-                reorder=(t.wchoice([(0, 5), (1, 2), (2, 2), (5, 1)]) if can_reorder else 0), valid_gids=int(t.bool(0.6)), kind=kind,
+                reorder=(t.wchoice([(0, 5), (1, 2), (2, 2), (5, 1)]) if can_reorder else 0), valid_gids=t.wchoice([(0, 3), (1, 5), (2, 2)]), kind=kind,
                 threads=t.choice([1, 2, 3, 4, 7, 16]), sched_seed=t.int(0, 1 << 30),
                 policy=t.wchoice([('mixed', 5), ('static', 1), ('dynamic', 2), ('guided', 1), ('reverse', 1)]),
                 check_prob=t.choice([0.0, 0.0, 0.05]), repeat=int(t.bool(0.15)), hashseed=t.int(1, 100000), hashseed2=t.int(1, 100000))
@@ -327,7 +327,7 @@ def execute(sc, prop):
             s.update(sig)
             viol.append(dict(invariant=inv, detail=detail, sig=s))
     nruns = 0
-    bkey = (problem, nx, steps, bool(sc.get('sort_gids')), bool(sc.get('valid_gids')))
+    bkey = (problem, nx, steps, bool(sc.get('sort_gids')), int(sc.get('valid_gids') or 0))
     if bkey not in _BASE:
         if len(_BASE) > 40:
             _BASE.clear()
@@ -361,6 +361,8 @@ def execute(sc, prop):
         probe('cache_on')
     if sc.get('sort_gids'):
         probe('sorted_runs')
+        if int(sc.get('valid_gids') or 0) == 2:
+            probe('sorted_with_partly_valid_gids')
     if sc.get('reorder'):
         probe('reorder_runs')
         if problem == 'tg':
